@@ -1917,7 +1917,7 @@ fn ksk_double_ds_roll(
 
                 let visible = k
                     .timestamps
-                    .ds_visible
+                    .visible
                     .as_ref()
                     .expect("Should have been set in Propagation2");
                 let elapsed = visible.elapsed();
